@@ -82,7 +82,14 @@ CATS = {
     "swamid-re-only": ["http://www.swamid.se/category/research-and-education"],
     "pvp2": ["http://www.ref.gv.at/ns/names/agiz/pvp/egovtoken"],
     "unrelated": ["http://example.org/category/none"],
+    # an SP (a proxy, say) that declares which categories it SUPPORTS as a releasing party and is a member of none - or of another one
+    "supports-refeds-rs-only": [],
+    "supports-coco+is-unrelated": ["http://example.org/category/none"],
+    "supports-swamid+is-refeds-rs": ["http://refeds.org/category/research-and-scholarship"],
 }
+CAT_SUPPORT = {"supports-refeds-rs-only": ["http://refeds.org/category/research-and-scholarship"],
+               "supports-coco+is-unrelated": ["http://www.geant.net/uri/dataprotection-code-of-conduct/v1", "http://refeds.org/category/research-and-scholarship"],
+               "supports-swamid+is-refeds-rs": ["http://www.swamid.se/category/research-and-education", "http://www.swamid.se/category/hei-service"]}
 
 
 def _to_map():
@@ -233,7 +240,7 @@ def run_sequence(case, ctx):
     mds = []
     for eid, decl, cat in SEQ_SPS:
         requested = [(to[n], n, req, vals) for n, req, vals in decl] if decl is not None else None
-        mds.append(mdgen.entity({"eid": eid, "entity_categories": CATS[cat],
+        mds.append(mdgen.entity({"eid": eid, "entity_categories": CATS[cat], "entity_category_support": CAT_SUPPORT.get(cat),
                                  "sp": {"keys": [("signing", 1)], "acs": [(B_POST, eid.replace("/md", "/acs"), 1, True)], "requested": requested}}))
     policy = {}
     for who, spec in POLICIES[case["policy"]].items():
@@ -309,7 +316,7 @@ def _idp(ctx, pol, decl, cat):
         requested = None
         if DECLS[decl] is not None:
             requested = [(to[n], n, req, vals) for n, req, vals in DECLS[decl]]
-        ent = {"eid": fed.SP_EID, "entity_categories": CATS[cat],
+        ent = {"eid": fed.SP_EID, "entity_categories": CATS[cat], "entity_category_support": CAT_SUPPORT.get(cat),
                "sp": {"keys": [("signing", 1), ("encryption", 2)], "acs": [(B_POST, fed.ACS_POST, 1, True)], "requested": requested}}
         if "second-descriptor" in decl:
             ent["sp_second"] = {"keys": [("signing", 1)], "acs": [(B_POST, fed.ACS_POST + "/second", 5, None)]}
